@@ -129,6 +129,8 @@ func (sc *SpecCtx) eval(x *Sx) specVal {
 		name := args[0].Atom
 		if srt, ok := t.P.ghostComps[name]; ok {
 			env.Comp(name, srt)
+		} else if srt, ok := t.P.stateFunSorts[name]; ok {
+			env.Comp(name, srt)
 		}
 		return specVal{sc.st.get(name), nil}
 	case "alloc":
@@ -252,6 +254,58 @@ func (sc *SpecCtx) eval(x *Sx) specVal {
 			sub = sub.withBound(b.List[0].Atom, b.List[0].Atom)
 		}
 		return specVal{fmt.Sprintf("(let (%s) %s)", strings.Join(bs, " "), sub.expand(args[1])), nil}
+	case "unchanged-old":
+		// (unchanged-old COMP): locations that existed at the old state keep their old value in COMP
+		name := args[0].Atom
+		return specVal{fmt.Sprintf("(forall ((r!u Ref)) (! (=> (<= (rid r!u) %s) (= (select %s r!u) (select %s r!u))) :pattern ((select %s r!u))))",
+			sc.old.get("alloc"), sc.st.get(name), sc.old.get(name), sc.st.get(name)), nil}
+	case "rangeslice":
+		// the slice a "for range" loop iterates over (evaluated once, before the loop)
+		if sc.fr != nil && sc.at != nil {
+			if lr := sc.fr.loops[sc.at]; lr != nil {
+				for b := range lr.body {
+					for _, in := range b.Instrs {
+						if ia, ok := in.(*ssa.IndexAddr); ok {
+							if bo, ok := ia.Index.(*ssa.BinOp); ok {
+								if phi, ok := bo.X.(*ssa.Phi); ok && phi.Block() == sc.at && phi.Comment == "rangeindex" {
+									if _, done := sc.fr.vals[ia.X]; done {
+										return specVal{sc.fr.val(ia.X), ia.X.Type()}
+									}
+								}
+							}
+						}
+					}
+				}
+			}
+		}
+		t.errorf("spec: rangeslice used outside a range-over-slice loop")
+		return specVal{"nilslice", nil}
+	case "tyid":
+		// (tyid *pkg.Type) / (tyid pkg.Type): the dynamic-type id of a named (pointer) type
+		name := args[0].Atom
+		ptr := strings.HasPrefix(name, "*")
+		typ := t.P.typeByName(strings.TrimPrefix(name, "*"))
+		if typ == nil {
+			t.errorf("spec: unknown type %s in tyid", name)
+			return specVal{"0", nil}
+		}
+		if ptr {
+			typ = types.NewPointer(typ)
+		}
+		return specVal{env.TyIDTerm(typ), nil}
+	case "global":
+		// (global pkg.Name): value of a package-level variable that is never assigned after init
+		name := args[0].Atom
+		i := strings.LastIndex(name, ".")
+		for _, p := range t.P.pkgs {
+			if i > 0 && p.Pkg.Name() == name[:i] && strings.HasPrefix(p.Pkg.Path(), modPath) {
+				if g, ok := p.Members[name[i+1:]].(*ssa.Global); ok && t.P.immutable[g] {
+					return specVal{t.immutableGlobal(g), g.Type().(*types.Pointer).Elem()}
+				}
+			}
+		}
+		t.errorf("spec: no immutable global %s", name)
+		return specVal{"vnil", nil}
 	case "cast":
 		// (cast e pkg.Type): e is a reference to a value of the named struct type
 		v := sc.eval(args[0])
@@ -301,7 +355,10 @@ func (sc *SpecCtx) eval(x *Sx) specVal {
 
 // expandRaw expands a head that is itself a list, e.g. ((_ extract 7 0) x) or ((_ is vint) v).
 func (sc *SpecCtx) expandRaw(x *Sx) string {
-	return x.String()
+	if x.Head() == "_" || x.Head() == "as" {
+		return x.String()
+	}
+	return sc.expand(x)
 }
 
 func (sc *SpecCtx) fieldOf(base specVal, fname string, x *Sx) specVal {
